@@ -125,6 +125,10 @@ def _case_at(path, idx):
 def run(tier):
     rep = vf.Report(PROP, tier)
     binary = vf.build('c18', ['c18.cpp'])
+    # the spec is validated against the RFC 4180 examples and the documented typed readings before it is used
+    r = vf.tlc_check('gen/MC_C18valid', 'gen/MC_C18valid.cfg', workers=1, timeout=600)
+    if r['rc'] != 0:
+        raise vf.InfraError('Csv.tla disagrees with its validation corpus (spec error, not a violation):\n' + r['tail'][-2000:])
     g = gens(tier)
     totals, stats = {}, dict(validated=0, dev_cases=0, dev_validated=0)
     ncases = {}
@@ -147,7 +151,7 @@ def run(tier):
                    '(true, null, 12, -1, 1.5, "a"-like, CRLF, non-BMP, ...) and scalars; (pair) 1x2 and 2x1; (grid) 2x2, 1x3/3x1 (thorough 2x3, 3x2, 3x3) '
                    'over smaller cell sets; (names) arrays-of-objects and column objects with column names that are empty / contain delimiter, quote, '
                    'line break, space, non-ASCII / are unsorted.  TOON: every value of depth <= 2 (thorough: wrapped once more) over {1, "x,"}, arrays <= 2, '
-                   'keys a,b, plus 37 boundary strings and 19 keys in every syntactic position, x delimiter x indent x length marker.  One case = one '
+                   'keys a,b, plus 37 boundary strings and 20 keys in every syntactic position, x delimiter x indent x length marker.  One case = one '
                    'distinct generated tuple; json and ojson, string and stream overloads.')
     cov['bounds'] = {c: open(os.path.join(vf.SPEC, c)).read().split('CONSTANTS')[1].split() for c in CFG[tier]}
     cov['samples'] = vf.sample_lines(g[1][1], 2) + vf.sample_lines(g[-1][1], 1)
